@@ -39,6 +39,23 @@ def relevant_projection(spec, o, forced_leaves=()):
                                 changed = True
     # (an effect's own option: its VALUE is irrelevant to the dataset's value, its presence is not -- validate() insists on it)
     proj = {k: ("§present" if k in EFFECT_ONLY_KEYS else o[k]) for k in sorted(o) if k in tops}
+    if isinstance(proj.get("R"), list):
+        # rows of a list of sections: the program refers to single rows ('R.1.N'); a row no key path and no templated value
+        # points into is something "nothing in the graph refers to" (its PRESENCE stays: indices and length matter)
+        reads = [p for p in gen.program_key_paths(spec) if p.split(".")[0] == "R"]
+        for q in U.all_paths(o):
+            v = U.lookup(q, o)[1]
+            if isinstance(v, str):
+                reads += [r for r in U.template_refs(v) if r.split(".")[0] == "R"]
+        idx = set()
+        for p in reads:
+            seg = p.split(".")
+            if len(seg) < 2 or not seg[1].isdigit():
+                idx = None
+                break
+            idx.add(int(seg[1]))
+        if idx is not None:
+            proj["R"] = [row if j in idx else "§unread" for j, row in enumerate(proj["R"])]
     if forced_leaves:
         import copy
 
